@@ -229,6 +229,65 @@ func c19(r *Run) {
 		}
 		guardedBy("queueTrigger", "w", isML("Lock"), isML("Unlock"), "listLock", map[string]string{"mux.NewShardQueue": "constructor"})
 	}
+	// eventLoop.svr: Serve and Shutdown run on different goroutines, the handle is read and written under the loop's mutex
+	{
+		isEL := func(name string) func(ssa.Instruction) bool {
+			return func(i ssa.Instruction) bool {
+				f := calleeOf(i)
+				if f == nil || f.Name() != name || f.Pkg == nil || f.Pkg.Pkg.Path() != "sync" {
+					return false
+				}
+				tn, _, _, ok := fieldOf(callCommon(i).Args[0])
+				return ok && tn == "eventLoop"
+			}
+		}
+		guardedBy("eventLoop", "svr", isEL("Lock"), isEL("Unlock"), "the event loop's mutex", map[string]string{})
+	}
+	// connection.ctx: written by the connect task while it holds the connecting lock; the disconnect side reads it only after it
+	// has taken that lock, or after it saw that no OnConnect is installed (no writer)
+	{
+		ro := r.roles()
+		fn := ro.onDisconnectM
+		isOnConnLoad := func(v ssa.Value) bool {
+			c, ok := v.(*ssa.Call)
+			if !ok {
+				return false
+			}
+			a := asAtomic(c)
+			return a != nil && a.Op == "Load" && structFieldOfAddr(a.Addr) == "onEvent.onConnectCallback"
+		}
+		noWriter := func(v ssa.Value) (bool, bool) {
+			b, ok := v.(*ssa.BinOp)
+			if !ok || (b.Op != token.EQL && b.Op != token.NEQ) {
+				return false, false
+			}
+			for _, side := range [][2]ssa.Value{{b.X, b.Y}, {b.Y, b.X}} {
+				x := side[0]
+				if e, isE := x.(*ssa.Extract); isE {
+					if ta, isTA := e.Tuple.(*ssa.TypeAssert); isTA {
+						x = ta.X
+					}
+				}
+				if ta, isTA := x.(*ssa.TypeAssert); isTA {
+					x = ta.X
+				}
+				if (isOnConnLoad(x) || namedTypeName(side[0].Type()) == "OnConnect") && isNilConst(side[1]) {
+					return b.Op == token.EQL, true
+				}
+			}
+			return false, false
+		}
+		kC := r.W.ConstInt("connecting")
+		owns := anyAtom(noWriter, callResultAtom(ro.lock, true, kC))
+		n := 0
+		for _, ins := range findIns(fn, func(i ssa.Instruction) bool { _, ok := loadOfFieldIns(i, "onEvent", "ctx"); return ok }) {
+			n++
+			r.guarded("C19.R2:ctx-read-by-disconnect:"+ordinal(n), "onDisconnect reads connection.ctx (which the OnConnect task overwrites with OnConnect's result while it holds the connecting lock) only after it took the connecting lock itself or saw that no OnConnect is installed", fn, ins, owns, nil, "guarded by lock(connecting) | onConnect == nil")
+		}
+		if n == 0 {
+			r.absentf(" C19: onDisconnect does not read connection.ctx")
+		}
+	}
 	// connection.maxSize / bookSize: poller callbacks, Release under the slot token, init
 	{
 		ro := r.roles()
